@@ -211,6 +211,8 @@ def trace_validation(rep, wd, tier, seed):
     chunks = core.split(list(range(n)), core.NCPU)
     with ProcessPoolExecutor(len(chunks)) as ex:
         batches = list(ex.map(_drive_traces, [(seed, c[0], c[-1] + 1) for c in chunks]))
+    from . import isocheck
+    batches += isocheck.mark_threaded(isocheck.threaded('harness.c05', '_drive_traces', [(seed, 10000 + 40 * k, 10000 + 40 * k + 40) for k in range(8)], procs=2))
     # more than 64 KiB delivered through one unblocker
     big = []
     for i, nblocks in enumerate((66, 70)):
@@ -275,7 +277,7 @@ def _drive_ind(args):
         nb = r.choice((0, 1, 2, 3, 5, 9))
         tail = r.choice((0, 0, 1, 2, 500, P - 1, P, P + 1))
         data = bytes((j * 7 + tid) % 251 for j in range(nb * (P + T) + tail))
-        f = io.BytesIO(data)
+        f = drv.new_file(data)
         sizes = [r.choice((0, 1, 2, 4, 4, P - 1, P, P + 1, 2 * P, 3 * P + 7, r.randrange(1, 60), r.randrange(1, 3 * P),
                            sys.maxsize if tid % 7 == 3 else 5)) for _ in range(r.choice((1, 2, 3, 5, 8, 13)))]
         ev = []
